@@ -513,3 +513,14 @@ impl ToTyId for Intern<Ty> {
             .expect("to_previous_type_id can only be called on types that have already been compiled to id's")
     }
 }
+
+#[cfg(capy_verif)]
+pub mod verif_hooks {
+    pub fn simple_id(discriminant: u32, bit_width: u32, signed: bool) -> u32 {
+        super::simple_id(discriminant, bit_width, signed)
+    }
+
+    pub fn simple_id_with_align(discriminant: u32, size: u32, align: u32, signed: bool) -> u32 {
+        super::simple_id_with_align(discriminant, size, align, signed)
+    }
+}
